@@ -64,7 +64,7 @@ def units(tier):
     texts = [c for c in CHARS] + ["".join(p) for p in itertools.product(CHARS, repeat=2)]
     if tier == "thorough":
         rng = random.Random(seed())
-        texts += ["".join(rng.choice(CHARS) for _ in range(3)) for _ in range(1500)]
+        texts += ["".join(rng.choice(CHARS) for _ in range(3)) for _ in range(8000)]
     texts = [t for t in texts if t.strip()] + CURATED
     texts = list(dict.fromkeys(texts))
     us = [{"kind": "literal", "texts": ch} for ch in chunks(texts, 14)]
